@@ -1,6 +1,7 @@
 import PicoVerif.Model.Writers
 import PicoVerif.Spec.LuaLex
 import PicoVerif.Lemmas.C01
+import PicoVerif.Lemmas.C01Adj
 /-! C01 — luamin keeps the program: same tokens modulo renaming, nothing glued.
 
 The end-to-end statement is `minify_relex`. It is stated for every token list the lexer can produce in which no
@@ -117,6 +118,32 @@ theorem token_count (f : Bytes → Bytes) (a b : List Tok) (hlen : (sigToks a).l
     · rfl
     · split <;> rfl
   · intro h1 h2; rw [hd, if_neg h1, if_neg h2]
+
+/-- **C01.parsed_noFusable**: the side condition of `minify_relex` is a theorem about picotool's grammar: a token list that
+the lexer produced and that the parser accepts and consumes to its last significant token contains no fusable pair of
+neighbouring symbol/number tokens. (Proved by an adjacency analysis of the grammar data — FIRST/LAST/FOLLOW sets of token
+patterns, sound for every grammar (`Adj.run_adj`) — and a kernel-evaluated table fact about picotool's 71 patterns.) -/
+theorem parsed_noFusable (src : Bytes) (toks : List Tok) (hl : lex [src] = .ok toks) (fuel : Nat)
+    (ts : List Peg.Tree) (st' : Peg.PSt)
+    (hp : C08.parse toks.toArray fuel = .ok (some (ts, st')))
+    (hend : Peg.skipTrivia toks.toArray st'.pos ≥ toks.toArray.size) : NoFusablePair toks := by
+  intro i _ a b ha hb hsa hsb
+  have hca : a.code = a.data := C01L.code_plain a (by rcases hsa with h | h <;> simp [h])
+  have hcb : b.code = b.data := C01L.code_plain b (by rcases hsb with h | h <;> simp [h])
+  rw [hca, hcb]
+  exact C01A.parsed_no_fusable src toks hl fuel ts st' hp hend i a b ha hb hsa hsb
+
+/-- **C01.minify_relex_parsed** (end to end, no side condition): for every source text that picotool lexes and parses to its
+last significant token, the code luamin writes lexes to exactly the input's sequence of keywords, symbols, numbers,
+strings and identifiers, the identifiers differing at most by a renaming. -/
+theorem minify_relex_parsed (cfg : NameCfg) (src : Bytes) (toks : List Tok) (hl : lex [src] = .ok toks) (fuel : Nat)
+    (ts : List Peg.Tree) (st' : Peg.PSt)
+    (hp : C08.parse toks.toArray fuel = .ok (some (ts, st')))
+    (hend : Peg.skipTrivia toks.toArray st'.pos ≥ toks.toArray.size) :
+    ∃ out f, lex [minify cfg toks] = .ok out ∧ (sigToks out).length = (sigToks toks).length ∧
+      ∀ i, i < (sigToks toks).length →
+        ∃ a b, (sigToks out)[i]? = some a ∧ (sigToks toks)[i]? = some b ∧ sameTok a (renameTok f b) = true :=
+  minify_relex cfg src toks hl (parsed_noFusable src toks hl fuel ts st' hp hend)
 
 example : FusablePair [126] [61] = true := by decide +kernel       -- `~` `=` would fuse (never adjacent in a program)
 example : FusablePair [45] [45] = false := by decide +kernel        -- `-` `-` is separated by luamin
